@@ -20,7 +20,7 @@ func (prop) Rule() string {
 		"`new small c b` (the same feeder/bmt/store/hashtrie writers assembled with chunk size c in {32,64,96,100} and branching b in {2,3,4,5,8}: trees up to the 8-level limit, " +
 		"chunk counts b^k-1, b^k, b^k+1, and 2^7+1 chunks for the trie-full error); content lengths 0,1,31..33,63..65,127..129,4095..4097, C-1,C,C+1,2C-1,2C,2C+1,3C, random; " +
 		"segmentations: one write, fixed pieces 1/7/31/32/33/1000/4096/C/C+1/3C/random, random cuts with zero-length writes, cuts next to chunk boundaries; then `sum`. " +
-		"Model side also evaluates the independent format specification (Spec.root). Go oracle: independent Go implementation of the format (own BMT over sha3), same bytes in one write give the same reference, every Put is cac.Valid. " +
+		"Model side also evaluates the independent format specification (Spec.root) and runs the literal buffer-and-cursor model of the hash-trie writer next to the list model (BUF-LIST-MISMATCH if they differ); in `new small` mode the answers carry the writer's cursors[1..8], full flag and a digest of buffer[0:cursors[1]] after every ChainWrite and after Sum (real writer: verif hook hashtrie.VerifPeek; model: Aurora.HashTrieBuf), incl. fixed cases with the real constants (`new small 262144 8192`), B=128 and B=16. Go oracle: independent Go implementation of the format (own BMT over sha3), same bytes in one write give the same reference, every Put is cac.Valid. " +
 		"Non-trivial: summed content of >= 2 chunks or written in >= 2 writes; distinct by op-list hash. Real-constant multi-chunk cases are limited in number (Lean-side hashing cost)."
 }
 
@@ -45,6 +45,14 @@ func (prop) Gen(r *core.Rand, tier string) []core.Case {
 		{ID: "fix-chunk-boundary", NT: true, Ops: []string{"new", fmt.Sprintf("write p:7:%d:4096", C), "write h:ab", "sum",
 			"new", fmt.Sprintf("writeseg p:7:%d:4096 %d", C, C-1), "write h:ab", "sum", "new pipe", fmt.Sprintf("write p:7:%d:4096", C-5), fmt.Sprintf("write p:7:%d:4096", 5), "sum"}},
 		{ID: "fix-trie-full", NT: true, Ops: []string{"new small 32 2", "writeseg g:5:4096 32", "sum", "new small 32 2", "writeseg g:5:4097 33", "sum", "new small 32 2", "writeseg g:5:4128 32", "write h:01", "sum"}},
+		// cursor machine: real constants through the observable small assembly (cursors compared after every ChainWrite/Sum),
+		// a wide level (B=128: cursor values up to 128*40), three wrapped levels with B=16, carry into a full level (B=3)
+		{ID: "fix-cursors-real", NT: true, Ops: []string{fmt.Sprintf("new small %d 8192", C), fmt.Sprintf("write p:11:%d:4096", 2*C+5), "write h:abcd", "sum",
+			fmt.Sprintf("new small %d 8192", C), "write h:01", "sum"}},
+		{ID: "fix-cursors-wide", NT: true, Ops: []string{"new small 32 128", "writeseg g:3:4128 32", "sum", "new small 32 128", "writeseg g:3:4096 1000", "sum",
+			"new small 32 16", "writeseg g:4:131104 4096", "sum"}},
+		{ID: "fix-cursors-carry-full", NT: true, Ops: []string{"new small 32 3", "writeseg g:6:352 32", "sum", "new small 32 3", "writeseg g:6:864 32", "sum",
+			"new small 32 2", "writeseg g:6:96 32", "sum", "new small 32 2", "writeseg g:6:4064 32", "sum"}},
 		{ID: "fix-carry", NT: true, Ops: []string{"new small 64 4", "writeseg g:9:1088 64", "sum", "new small 64 4", "write g:9:1088", "sum", "new small 64 4", "writeseg g:9:1025 7", "sum"}},
 	}
 	add := func(id string, total int, head string) {
